@@ -574,6 +574,11 @@ class PteraTransformer(NodeTransformer):
         _hoist(node.body)
 
         for external in sorted(self.external):
+            if not self.should_instrument(external):
+                # Not probed: leave it a regular global lookup, with
+                # Python's own semantics (NameError at the point of use)
+                # rather than binding a local to ABSENT.
+                continue
             new_body.extend(
                 self.make_interaction(
                     target=ast.Name(id=external, ctx=ast.Store()),
